@@ -105,6 +105,7 @@ structure St where
   dup : Bool := false                               -- a variable was created under a name already in use (netCDF error)
   oldNames : Bool := false                          -- configuration: `_netcdf_name` as the code has it (`netcdfNameOld`)
   oldData : Bool := false                           -- configuration: data variables are registered in `seen` (as the code has it)
+  unlimDims : List Name := []                       -- g['unlimited_ncdims']
   links : List Link := []                           -- every field's `key_to_ncvar` (ghost state: read by nothing)
   nf : Nat := 0                                     -- number of fields written so far
   deriving Repr, Inhabited
@@ -207,6 +208,7 @@ structure AAxis where
   size : Nat
   ncdim : Option Name := none
   inData : Bool := true
+  unlimited : Bool := false      -- nc_is_unlimited
   deriving DecidableEq, Repr, Inhabited
 
 /-- a grid-mapping coordinate reference -/
@@ -384,15 +386,30 @@ def findSpanDim (patched : Bool) (spans : List (Name × Nat × List (CVal × Nat
       decide (e.2.1 = size) && !(patched && used.contains e.1) &&
       mine.any (fun m => e.2.2.any (fun o => decide (m.2 = o.2) && eqComp false m.1 o.1)))).map (·.1)
 
+/-- the by-name reuse of a dimension for an axis that pins a netCDF dimension name -/
+def pinnedDimReusable (s : St) (fs : FSt) (ax : AAxis) : Bool :=
+  match ax.ncdim with
+  | none => false
+  | some d =>
+    decide (ax.unlimited = s.unlimDims.contains d) && (lookup s.dimSizes d == some ax.size) &&
+    !(fs.axisDim.map (·.2)).contains d && !s.seen.any (·.ncvar == d) && !s.boundsDims.contains d
+
 /-- an axis without dimension coordinate that is (now) spanned by the data: reuse a dimension or make one -/
 def writeNoCoordAxis (patched : Bool) (f : AField) (s : St) (fs : FSt) (axis : Nat) (ax : AAxis) : St × FSt :=
   let mine := spanVals f axis
   match (if mine.isEmpty then none else findSpanDim patched s.spans (fs.axisDim.map (·.2)) ax.size mine) with
   | some d => (s, { fs with axisDim := fs.axisDim ++ [(axis, d)] })
   | none =>
-    let r := netcdfName s (ax.ncdim.getD "dim")
-    ({ r.1 with dimSizes := r.1.dimSizes ++ [(r.2, ax.size)] },
-     { fs with axisDim := fs.axisDim ++ [(axis, r.2)], newSpans := fs.newSpans ++ [(r.2, ax.size, mine)] })
+    if pinnedDimReusable s fs ax then
+      -- the axis asks by name for a dimension of its size that is already in the dataset, has no variable of
+      -- that name, is no bounds dimension, is unlimited or not like the axis and is not used by another axis
+      -- of this construct: that dimension is used rather than a renamed copy of it
+      (s, { fs with axisDim := fs.axisDim ++ [(axis, ax.ncdim.getD "dim")] })
+    else
+      let r := netcdfName s (ax.ncdim.getD "dim")
+      ({ r.1 with dimSizes := r.1.dimSizes ++ [(r.2, ax.size)],
+                  unlimDims := if ax.unlimited then r.1.unlimDims ++ [r.2] else r.1.unlimDims },
+       { fs with axisDim := fs.axisDim ++ [(axis, r.2)], newSpans := fs.newSpans ++ [(r.2, ax.size, mine)] })
 
 /-- `field_insert_dimension` for an axis spanned by something other than exactly-that-axis auxiliary coordinates -/
 def insertAxis (f : AField) (fs : FSt) (axis : Nat) : FSt :=
@@ -409,7 +426,9 @@ def writeAxis (patched : Bool) (f : AField) (s : St) (fs : FSt) (axis : Nat) (ax
       writeDimCoord s fs axis ax.size ax.ncdim key c
     else if (spanning f axis).length ≥ 2 then
       let r := writeDimCoord s fs axis ax.size ax.ncdim key c
-      (r.1, if f.isDomain then r.2 else { r.2 with dataAxes := axis :: r.2.dataAxes })
+      -- (the local list of data axes is updated too, so that auxiliary coordinates on the axis are not
+      -- written as scalar coordinate variables)
+      (r.1, if f.isDomain then r.2 else { r.2 with dataAxes := axis :: r.2.dataAxes, localAxes := r.2.localAxes ++ [axis] })
     else
       writeScalar s fs axis key c
   | none =>
